@@ -514,6 +514,8 @@ class Interp(object):
             r = n.get('ref')
             if r in env:
                 return env[r]
+            if r in getattr(self, 'fields', {}):
+                return self.fields[r]
         if k in ('UnaryOperator',) and n.get('op') in ('++', '--') and not n.get('post'):
             self.eval(fn, i, env)
             return self.lval(fn, n['ch'][0], env)
@@ -801,6 +803,8 @@ class Interp(object):
             r = n.get('ref')
             if r in env:
                 return env[r]
+            if r in getattr(self, 'fields', {}):
+                return self.fields[r]
             if 'cv' in n:
                 return AV.const(n['cv'])
             raise Unsupported('member %s at %s' % (r, fn.loc(i)))
@@ -822,7 +826,9 @@ class Interp(object):
         args = fn.args(i)
         hook = self.hooks.get(bcn) or self.hooks.get(cn)
         if hook:
-            return hook(self, fn, i, env)
+            r = hook(self, fn, i, env)
+            if r is not NotImplemented:
+                return r
         if k == 'CXXOperatorCallExpr':
             op = n.get('op')
             objn = n['ch'][1]
